@@ -152,7 +152,7 @@ class C14(Prop):
                 "samples": [{"query": q, "answer": a} for q, a in list(zip(qs, ref[1:]))[:4]]}
 
 
-CRASH_POINTS = [0, 1, 2, 3, 4, 5, 10, 11, 12, 13, 14, 15, 17, 16]
+CRASH_POINTS = [0, 1, 2, 3, 4, 5, 6, 10, 11, 12, 13, 14, 15, 17, 16]
 PRIOR = ["absent", "complete", "other-version", "other-data", "meta-missing", "meta-truncated", "meta-garbage",
          "index-missing", "index-damaged", "index-emptied",
          # an index that opens but does NOT hold the shipped data (committed empty), under metadata of
@@ -375,7 +375,7 @@ def foreign_build_histories(probes, fresh, tmpl, current, tier):
                 e["ANYTHING_VERIF_CRASH"] = str(cp)
             subprocess.run([str(other), "standard gravity g0"], capture_output=True, text=True, timeout=120, env=e)
 
-        pts = CRASH_POINTS if tier == "thorough" else [1, 4, 5, 11, 12, 13, 14, 15, 17]
+        pts = CRASH_POINTS if tier == "thorough" else [1, 4, 5, 6, 11, 12, 13, 14, 15, 17]
         hist = []
         for prior in ("complete", "absent", "other-data", "meta-missing", "index-missing") if tier == "thorough" else ("complete", "absent"):
             for cp in pts + [None]:
